@@ -215,6 +215,22 @@ Theorem C17_roundtrip_getlink :
     get_link (map (link_of base) (entries roots subjects)) (e_name e) = Some (base ++ [47] ++ e_url e).
 Proof. exact roundtrip_get_link. Qed.
 
+(* Through the docstring linker (linker.look_for_intersphinx), from every object of every documented system -- whatever
+   its root names, in particular when they share the top-level package of the entry (namespace packages, a project
+   split over several runs): every entry of a loaded written inventory resolves to its page and anchor, and in general
+   the linker answers exactly what getLink answers. *)
+Theorem C17_linker_resolves_entries :
+  forall (roots : list text) (subjects : list obj) (base : text) (e : entry) (root_names : list text) (obj_full : text),
+    NoDup (map e_name (entries roots subjects)) -> In e (entries roots subjects) ->
+    look_for_intersphinx (map (link_of base) (entries roots subjects)) root_names obj_full (e_name e)
+    = Some (base ++ [47] ++ e_url e).
+Proof. exact linker_resolves_entries. Qed.
+
+Theorem C17_linker_is_getlink :
+  forall (links : dict) (root_names : list text) (obj_full name : text),
+    look_for_intersphinx links root_names obj_full name = get_link links name.
+Proof. exact linker_is_getlink. Qed.
+
 (* driver.make: whenever HTML is written the inventory is written as well, for exactly the subjects whose pages are
    written (the --html-subject objects, none under --html-summary-pages, else the roots); without HTML an inventory
    covers the root objects. *)
